@@ -14,6 +14,7 @@ import Proofs.SeqInv
 import Proofs.Eom
 import Proofs.EomSeq
 import Properties.C02
+import Mathlib.Tactic.Ring
 namespace Pulser
 namespace C15
 
@@ -171,6 +172,19 @@ theorem eom_blocks_wellformed (dev : Device) (nQ : Nat) (hd : DevOk dev) (hde : 
   intro c hc
   have h := runEv_EI (s := SeqState.init dev nQ) hd hde h0 he0 evs c hc
   exact ⟨h.closed, h.onlyLast, h.noCfg, fun hd => h.noCfg (h.dmm hd)⟩
+
+/-- **The drift corrected when EOM mode is enabled is the one accumulated over the buffer**: the
+phase shift applied by `enable_eom_mode(correct_phase_drift=True)` is `detuning_off` times the length
+of the buffer instruction (in µs) — nothing is counted for the wait that precedes the buffer
+(repair of F40: the drift used to start at the end of the previous pulse's fall time, i.e.
+before the adjusted wait had elapsed). -/
+theorem enable_drift_over_buffer (detOff : Rat) (buf : Slot) (h : 0 ≤ buf.ti) :
+    -(({ rate := -detOff, ti := max buf.ti 0 } : Drift).calc buf.tf) =
+      detOff * ((buf.tf : Rat) - (buf.ti : Rat)) / 1000 := by
+  have hm : max buf.ti 0 = buf.ti := Int.max_eq_left h
+  unfold Drift.calc
+  simp only [hm]
+  ring
 
 /-! ### Non-vacuity -/
 
